@@ -279,10 +279,18 @@ theorem remove_pending_kept (limit : Nat) (c : Ctx) (w : Wid) (addrs : List Addr
 
 /-- FULL statement of "the survivors stay correct under LATER reorganisations", kept type-checked: rolling back
     after a removal step gives, on every other wallet's projection, what rolling back before it gives.
-    NOT PROVED: it needs a frame argument through MW.Model.Ledger.rollback (nested monadic loops); what is proved
-    instead is that every record `rollback` reads for another wallet survives the step (`remove_frames`:
-    `txrecs`, `blocks`, `credits`, `debits`, id-keyed buckets), and the three-way differential runs compare the
-    survivors with the chain specification after reorganisations that follow a removal. -/
+    NOT PROVED.  With C01's library (`Inv c s chain`, `rollback_connect`, `reorg_reaches`) the natural route is no longer
+    a frame argument through `rollback` but `remove ⊨ project`: if `Inv c s chain` holds and the finishing step yields
+    `o`, then `Inv c' o.s chain` for `c'` = `c` without the removed keystore — after which every later reorganisation is
+    C01's `reorg_reaches` for `c'`.  STILL MISSING for that: (1) `bookOf p own' chain` is the restriction of
+    `bookOf p own chain` to the other wallets (credits / debits / unspent / deposit records of other script hashes,
+    tx and block records of exactly the transactions that touch another wallet) — a statement about MW.Spec.Books alone;
+    (2) `removable … tx = false ↔ tx touches another wallet's books` given `Agree` (the credit-based test of
+    `spendsCreditOfOtherWallet` against the books' `touches`); (3) `Inv`'s `AllReady` hypothesis: between `RemoveWallet`
+    and the finishing step the flagged wallet is not ready while its keystore exists, the same gap as for an importing
+    wallet (MW.Props.C07.import_exact_full, item 2).  `remove_frames` already gives the store-level half of (1)+(2):
+    every record of another wallet survives, nothing of the removed wallet does (`remove_erases`).  The three-way
+    differential runs compare the survivors with the chain specification after reorganisations that follow a removal. -/
 def remove_frames_rollback_full : Prop :=
   ∀ (limit : Nat) (c : Ctx) (w w' : Wid) (addrs : List Addr) (s : Store) (o : StepOut) (height : Nat) (r r' : Store),
     w' ≠ w → removeStep limit c w addrs s = some o →
